@@ -73,8 +73,12 @@ def cases(tier, seed):
         out.append({'name': 'heatup-%d' % i, 'kind': 'heatup',
                     'seed': [seed, 36, i]})
     for ds in ('single_asm_refl', 'single_asm_vac'):
-        out.append({'name': 'varpow-' + ds, 'kind': 'varpow', 'dataset': ds,
-                    'seed': [seed, 34, 0]})
+        # the repository's input as it is; the same with another requested
+        # core power and a scaling factor; the same with the assembly
+        # modelled without pins (low-fidelity)
+        for n, var in enumerate(('asis', 'scaled', 'lowfidelity')):
+            out.append({'name': 'varpow-%s-%s' % (ds, var), 'kind': 'varpow',
+                        'dataset': ds, 'variant': var, 'seed': [seed, 34, n]})
     return out
 
 
@@ -103,6 +107,8 @@ def build_problem(case):
         sp['comps'] = wl.choose(rng, [[1, 2, 3], [1, 2, 3], [1], [1, 3],
                                       [2, 3], [1, 2], [3]])
         sp['shape'] = wl.choose(rng, ['rand', 'rand', 'flat', 'hotpin'])
+        sp['zero_pin_cells'] = ([int(rng.integers(nc))] if nc > 1 and
+                                rng.random() < 0.25 else [])
         # align power-cell bounds with region bounds in ~half of the cases
         t = P['types']['a']
         regs = t.get('AxialRegion', {})
@@ -116,6 +122,7 @@ def build_problem(case):
                 nc = len(P['power']['zb']) - 1
                 sp['axial'] = [float(x) for x in rng.uniform(0.1, 1.6, nc)]
                 sp['zero_cells'] = []
+                sp['zero_pin_cells'] = []
             else:
                 inner = P['power']['zb'][1:-1]
                 feats['aligned'] = all(any(abs(b - z) < 1e-9 for z in inner)
@@ -128,6 +135,13 @@ def build_problem(case):
     feats['scaling'] = P['power'].get('scaling')
     feats['cells'] = len(P['power']['zb']) - 1
     feats['order'] = P['power']['order']
+    feats['inches'] = False
+    if case['kind'] != 'core' and rng.random() < 0.25:
+        # written in inches, bounds at half-inch values
+        Q = wl.in_inches(P)
+        if Q is not None:
+            P = Q
+            feats['inches'] = True
     return P, feats
 
 
@@ -165,7 +179,8 @@ def run_power(case, res):
         if rng.random() < 0.5:
             # user step: from the limit down to 1/20 of it
             P['setup']['axial_mesh_size'] = float(
-                r.req_dz * wl.choose(rng, [1.0, 0.7, 0.31, 0.1, 0.05]))
+                r.req_dz * wl.choose(rng, [1.0, 0.7, 0.31, 0.1, 0.05])
+                / (0.0254 if feats['inches'] else 1.0))
             feats['user_dz'] = P['setup']['axial_mesh_size']
         else:
             feats['user_dz'] = None
@@ -200,7 +215,7 @@ def run_power(case, res):
                       abs(e) + 1e-12, TOL,
                       'Assembly._power_delivered != independent dz*power '
                       'tally', key)
-        for k in ('norm', 'aligned', 'cells', 'order', 'scaling'):
+        for k in ('norm', 'aligned', 'cells', 'order', 'scaling', 'inches'):
             res.tag('%s=%s' % (k, feats.get(k)))
         res.tag('user_dz=%s' % (feats['user_dz'] is not None))
         if exp_tot > 0 and len(r.z) > 10:
@@ -265,12 +280,14 @@ def run_heatup(case, res):
     solved first in the step and the walls store nothing)."""
     rng = np.random.default_rng(case['seed'])
     nd = int(wl.choose(rng, [1, 2, 2, 3]))
+    want_inches = bool(rng.random() < 0.5)
     P, feats = wl.single_assembly(rng, tdep=False, max_rings=4, lf=False,
                                   gap='none',
-                                  regions=bool(rng.random() < 0.5),
+                                  regions=bool(want_inches or
+                                               rng.random() < 0.5),
                                   n_duct=nd,
                                   vel=wl.loguniform(rng, 0.3, 5.0),
-                                  length=0.4)
+                                  length=(0.8 if want_inches else 0.4))
     for m in P['types'].values():
         m['duct_material'] = 'steel_const'
     sp = P['power']['asm']['0']
@@ -279,6 +296,13 @@ def run_heatup(case, res):
     sp['comps'] = [1, 2, 3]
     cp = gen.CP
     key = {'n_duct': nd, 'byp': bool(feats.get('byp'))}
+    inches = False
+    if want_inches:
+        # the same written in inches, core height and region bounds at
+        # half-inch values
+        Q = wl.in_inches(P)
+        if Q is not None:
+            P, inches = Q, True
 
     def on_step(rec):
         reg = rec['reg']
@@ -317,8 +341,9 @@ def run_heatup(case, res):
                 dH += float(np.sum(mb * cp * (
                     rec['post']['coolant_byp'][i]
                     - rec['pre']['coolant_byp'][i])))
-        q = sum(float(np.sum(pw[c])) for c in ('pins', 'cool', 'duct')
-                if pw.get(c) is not None)
+        # everything handed to the region at this height counts, whatever
+        # its kind
+        q = sum(float(np.sum(v)) for v in pw.values() if v is not None)
         res.close('P6_coolant_heatup_equals_power_used', dH - dz * q,
                   dz * abs(q) + abs(dH) + floor, 1e-8,
                   'coolant heat-up in a step != pin + coolant + duct-wall '
@@ -333,6 +358,7 @@ def run_heatup(case, res):
         if a.total_power > 0:
             res.nontrivial('heatup/%d/%s/%s' % (nd, feats.get('nr'),
                                                 case['seed'][-1]))
+    res.tag('heatup_inches=%s' % inches)
     res.tag('heatup_n_duct=%d' % nd)
     res.tag('heatup_bypass_flow=%s' % bool(feats.get('byp')))
     return feats
@@ -392,31 +418,62 @@ def run_varpow(case, res):
         txt = re.sub(r'\.\./test_data/\w+/', '', txt)
         txt = re.sub(r'(?ms)^\s*\[\[AssemblyTables\]\].*?(?=^\[|\Z)', '',
                      txt, count=1)
+        var = case.get('variant', 'asis')
+        rng = np.random.default_rng(case['seed'])
+        if var != 'asis':
+            ptot = float(rng.uniform(2.0e6, 8.0e6))
+            scale = float(wl.choose(rng, [0.5, 0.8, 1.25]))
+            txt = re.sub(r'(?m)^(\s*total_power\s*=).*$',
+                         r'\g<1> %r\n    power_scaling_factor = %r'
+                         % (ptot, scale), txt, count=1)
+        if var == 'lowfidelity':
+            txt = re.sub(r'(?m)^(\s*)(num_rings\s*=.*)$',
+                         r'\g<1>\g<2>\n\g<1>use_low_fidelity_model = True',
+                         txt)
+            # pin temperatures need pins
+            txt = re.sub(r'(?ms)^\s*\[\[\[FuelModel\]\]\].*?(?=^\s*\[|^#|\Z)',
+                         '', txt)
         path = os.path.join(d, 'input.txt')
         with open(path, 'w') as f:
             f.write(txt)
         inp = drive.read_input(path)
-        r = drive.build_reactor(inp, calc_power=True)
-        drive.sweep(r)
+        tally = {}
+
+        def on_step(rec):
+            pw = rec['pow'] or {}
+            tally[id(rec['asm'])] = tally.get(id(rec['asm']), 0.0) + \
+                rec['dz'] * sum(float(np.sum(v)) for v in pw.values()
+                                if v is not None)
+
+        with Hooks() as hk:
+            r = drive.build_reactor(inp, calc_power=True)
+            StepMonitor(hk, on_step)
+            drive.sweep(r)
         tot = 0.0
+        key = {'dataset': case['dataset'], 'variant': var}
         for a in r.assemblies:
             got = float(sum(a._power_delivered.values()))
             tot += got
             res.close('P5_varpow_delivered', got - a.total_power,
                       abs(a.total_power), VARPOW_TOL,
-                      'VARPOW power: delivered != assigned',
-                      {'dataset': case['dataset']},
+                      'VARPOW power: delivered != assigned', key,
                       {'got': got, 'exp': a.total_power})
+            res.close('P1b_tally_matches_hook', got - tally.get(id(a), 0.0),
+                      abs(a.total_power) + 1e-12, TOL,
+                      'Assembly._power_delivered != independent dz*power '
+                      'tally', key)
         tp = inp.data['Power']['total_power']
         if tp is not None:
             res.close('P5_varpow_core_total', tot - tp
                       * inp.data['Power']['power_scaling_factor'], tp,
                       VARPOW_TOL,
-                      'VARPOW power: core total != requested',
-                      {'dataset': case['dataset']})
+                      'VARPOW power: core total != requested x scaling', key,
+                      {'got': tot, 'requested': tp, 'scaling':
+                       inp.data['Power']['power_scaling_factor']})
         res.tag('varpow_executed')
-        res.nontrivial('varpow/' + case['dataset'])
-    return {'dataset': case['dataset']}
+        res.tag('varpow_variant=' + var)
+        res.nontrivial('varpow/%s/%s' % (case['dataset'], var))
+    return {'dataset': case['dataset'], 'variant': var}
 
 
 def run_case(case):
